@@ -14,6 +14,7 @@ static GLOBAL: alloc_watch::WatchAlloc = alloc_watch::WatchAlloc;
 pub mod engine;
 pub mod hal;
 pub mod mmio;
+pub mod tracer;
 pub mod dev;
 pub mod ring;
 pub mod qcore;
